@@ -16,6 +16,7 @@ import Verif.Model.Common
     authzUpdate               DB.GetAuthorization (loads every challenge) + (*Authorization).UpdateStatus
     authzLoop, orderUpdate    (*Order).UpdateStatus (every authorization is loaded and updated, no
                               early exit; updates made before an error persist)
+    Deny                      a storage fault of one request: the update writes of one object fail
     finalize                  api.FinalizeOrder + (*Order).Finalize; "CSR names match" (o.sans, C13),
                               "signing succeeded" and "the final UpdateOrder failed" are inputs
     pollIndex                 nosql updateAddOrderIDs: every indexed order of the account is
@@ -79,13 +80,24 @@ def setAuthz (s : Store) (a : Nat) (az : Authz) (st : Status) : Store :=
 def setOrder (s : Store) (o : Nat) (ord : Order) (st : Status) (cert : Option Nat) : Store :=
   { s with orders := s.orders.set o { ord with status := st, cert := cert } }
 
+/-- A storage fault of one request: every update write (compare-and-swap of an existing record)
+    of the named object fails while the request runs; nothing else is affected. `none` = no fault.
+    (A failing `CmpAndSwap` error and a lost swap "changed since last read" look the same to the
+    callers: `Update*` returns an error and the record keeps its old value.) -/
+inductive Deny where
+  | none
+  | chal (c : Nat)
+  | authz (a : Nat)
+  | order (o : Nat)
+  deriving Repr, DecidableEq
+
 def chalValid (s : Store) (c : Nat) : Bool :=
   match s.chals[c]? with
   | some ch => ch.status == .valid
   | none => false
 
 /-- GetAuthorization + Authorization.UpdateStatus. Result status `none` = an error was returned. -/
-def authzUpdate (s : Store) (a : Nat) (now : Nat) : Store × Option Status :=
+def authzUpdate (d : Deny) (s : Store) (a : Nat) (now : Nat) : Store × Option Status :=
   match s.authzs[a]? with
   | none => (s, none)
   | some az =>
@@ -95,23 +107,25 @@ def authzUpdate (s : Store) (a : Nat) (now : Nat) : Store × Option Status :=
       | .valid => (s, some .valid)
       | .ready => (s, none)
       | .pending =>
-        if now > az.expires then (setAuthz s a az .invalid, some .invalid)
-        else if az.chals.any (chalValid s) then (setAuthz s a az .valid, some .valid)
+        if now > az.expires then
+          (if d = .authz a then (s, none) else (setAuthz s a az .invalid, some .invalid))
+        else if az.chals.any (chalValid s) then
+          (if d = .authz a then (s, none) else (setAuthz s a az .valid, some .valid))
         else (s, some .pending)
 
 /-- the loop of Order.UpdateStatus over the authorization ids -/
-def authzLoop (s : Store) (now : Nat) : List Nat → Store × Option (List Status)
+def authzLoop (d : Deny) (s : Store) (now : Nat) : List Nat → Store × Option (List Status)
   | [] => (s, some [])
   | a :: as =>
-    match authzUpdate s a now with
+    match authzUpdate d s a now with
     | (s1, none) => (s1, none)
     | (s1, some st) =>
-      match authzLoop s1 now as with
+      match authzLoop d s1 now as with
       | (s2, none) => (s2, none)
       | (s2, some sts) => (s2, some (st :: sts))
 
 /-- DB.GetOrder + Order.UpdateStatus -/
-def orderUpdate (s : Store) (o : Nat) (now : Nat) : Store × Option Status :=
+def orderUpdate (d : Deny) (s : Store) (o : Nat) (now : Nat) : Store × Option Status :=
   match s.orders[o]? with
   | none => (s, none)
   | some ord =>
@@ -119,16 +133,20 @@ def orderUpdate (s : Store) (o : Nat) (now : Nat) : Store × Option Status :=
     | .invalid => (s, some .invalid)
     | .valid => (s, some .valid)
     | .ready =>
-      if now > ord.expires then (setOrder s o ord .invalid ord.cert, some .invalid)
+      if now > ord.expires then
+        (if d = .order o then (s, none) else (setOrder s o ord .invalid ord.cert, some .invalid))
       else (s, some .ready)
     | .pending =>
-      if now > ord.expires then (setOrder s o ord .invalid ord.cert, some .invalid)
-      else match authzLoop s now ord.authzs with
+      if now > ord.expires then
+        (if d = .order o then (s, none) else (setOrder s o ord .invalid ord.cert, some .invalid))
+      else match authzLoop d s now ord.authzs with
         | (s1, none) => (s1, none)
         | (s1, some sts) =>
-          if sts.any (· == .invalid) then (setOrder s1 o ord .invalid ord.cert, some .invalid)
+          if sts.any (· == .invalid) then
+            (if d = .order o then (s1, none) else (setOrder s1 o ord .invalid ord.cert, some .invalid))
           else if sts.any (· == .pending) then (s1, some .pending)
-          else if sts.all (· == .valid) then (setOrder s1 o ord .ready ord.cert, some .ready)
+          else if sts.all (· == .valid) then
+            (if d = .order o then (s1, none) else (setOrder s1 o ord .ready ord.cert, some .ready))
           else (s1, none)
 
 /-- verdict of a challenge validator, seen from the state machine -/
@@ -156,43 +174,44 @@ inductive Resp where
   deriving Repr, DecidableEq
 
 /-- api.GetChallenge + Challenge.Validate -/
-def respond (s : Store) (acct c : Nat) (out : Outcome) : Store × Resp :=
+def respond (d : Deny) (s : Store) (acct c : Nat) (out : Outcome) : Store × Resp :=
   match s.chals[c]? with
   | none => (s, .notFound)
   | some ch =>
     if ch.acct ≠ acct then (s, .unauthorized)
     else if ch.status ≠ .pending then (s, .ok ch.status)
+    else if d = .chal c then (s, .ise)
     else match out with
       | .success => (setChal s c ch .valid, .ok .valid)
       | .retry => (s, .ok .pending)
       | .reject => (setChal s c ch .invalid, .ok .invalid)
       | .dbError => (s, .ise)
 
-def getAuthz (s : Store) (acct a now : Nat) : Store × Resp :=
+def getAuthz (d : Deny) (s : Store) (acct a now : Nat) : Store × Resp :=
   match s.authzs[a]? with
   | none => (s, .notFound)
   | some az =>
     if az.acct ≠ acct then (s, .unauthorized)
-    else match authzUpdate s a now with
+    else match authzUpdate d s a now with
       | (s1, none) => (s1, .ise)
       | (s1, some st) => (s1, .ok st)
 
-def getOrder (s : Store) (acct o now : Nat) : Store × Resp :=
+def getOrder (d : Deny) (s : Store) (acct o now : Nat) : Store × Resp :=
   match s.orders[o]? with
   | none => (s, .notFound)
   | some ord =>
     if ord.acct ≠ acct then (s, .unauthorized)
-    else match orderUpdate s o now with
+    else match orderUpdate d s o now with
       | (s1, none) => (s1, .ise)
       | (s1, some st) => (s1, .ok st)
 
 /-- api.FinalizeOrder with a well-formed CSR -/
-def finalize (s : Store) (acct o now : Nat) (csrOk signOk updFail : Bool) : Store × Resp :=
+def finalize (d : Deny) (s : Store) (acct o now : Nat) (csrOk signOk updFail : Bool) : Store × Resp :=
   match s.orders[o]? with
   | none => (s, .notFound)
   | some ord =>
     if ord.acct ≠ acct then (s, .unauthorized)
-    else match orderUpdate s o now with
+    else match orderUpdate d s o now with
       | (s1, none) => (s1, .ise)
       | (s1, some .invalid) => (s1, .notReady)
       | (s1, some .pending) => (s1, .notReady)
@@ -203,7 +222,7 @@ def finalize (s : Store) (acct o now : Nat) (csrOk signOk updFail : Bool) : Stor
         else
           let cid := s1.certs.length
           let s2 := { s1 with certs := s1.certs ++ [({ order := o, acct := ord.acct } : Cert)] }
-          if updFail then (s2, .ise)
+          if updFail = true ∨ d = .order o then (s2, .ise)
           else match s2.orders[o]? with
             | none => (s2, .ise)
             | some ord2 => (setOrder s2 o ord2 .valid (some cid), .ok .valid)
@@ -219,21 +238,21 @@ def setIndex (s : Store) (acct : Nat) (ids : List Nat) : Store :=
   { s with index := (acct, ids) :: s.index.filter (·.1 != acct) }
 
 /-- the loop of updateAddOrderIDs: update every listed order, keep the pending ones -/
-def pollLoop (s : Store) (now : Nat) : List Nat → Store × Option (List Nat)
+def pollLoop (d : Deny) (s : Store) (now : Nat) : List Nat → Store × Option (List Nat)
   | [] => (s, some [])
   | o :: os =>
-    match orderUpdate s o now with
+    match orderUpdate d s o now with
     | (s1, none) => (s1, none)
     | (s1, some st) =>
-      match pollLoop s1 now os with
+      match pollLoop d s1 now os with
       | (s2, none) => (s2, none)
       | (s2, some keep) => (s2, some (if st = .pending then o :: keep else keep))
 
 /-- nosql updateAddOrderIDs(accID, false, add…): a missing or empty entry is the empty list;
     nothing is written when the list was and stays empty; an emptied list is written as nil. -/
-def pollIndex (s : Store) (acct now : Nat) (add : List Nat) : Store × Option (List Nat) :=
+def pollIndex (d : Deny) (s : Store) (acct now : Nat) (add : List Nat) : Store × Option (List Nat) :=
   let old := (indexOf s acct).getD []
-  match pollLoop s now old with
+  match pollLoop d s now old with
   | (s1, none) => (s1, none)
   | (s1, some keep) =>
     let nu := keep ++ add
@@ -253,7 +272,7 @@ def createAuthzs (s : Store) (acct exp : Nat) : List Nat → Store × List Nat
     | (s3, as) => (s3, a :: as)
 
 /-- api.NewOrder (identifiers already passed Validate and the policies) -/
-def newOrder (s : Store) (acct now : Nat) (nch : List Nat) : Store × Resp :=
+def newOrder (d : Deny) (s : Store) (acct now : Nat) (nch : List Nat) : Store × Resp :=
   if nch = [] then (s, .malformed)
   else
     let exp := now + lifetime
@@ -262,14 +281,14 @@ def newOrder (s : Store) (acct now : Nat) (nch : List Nat) : Store × Resp :=
       let o := s1.orders.length
       let s2 := { s1 with orders := s1.orders ++
         [({ acct := acct, status := .pending, expires := exp, authzs := azs, cert := none } : Order)] }
-      match pollIndex s2 acct now [o] with
+      match pollIndex d s2 acct now [o] with
       | (s3, none) => (s3, .ise)
       | (s3, some _) => (s3, .created o)
 
 /-- api.GetOrdersByAccountID -/
-def listOrders (s : Store) (acct urlAcct now : Nat) : Store × Resp :=
+def listOrders (d : Deny) (s : Store) (acct urlAcct now : Nat) : Store × Resp :=
   if acct ≠ urlAcct then (s, .unauthorized)
-  else match pollIndex s acct now [] with
+  else match pollIndex d s acct now [] with
     | (s1, none) => (s1, .ise)
     | (s1, some ids) => (s1, .list ids)
 
@@ -290,21 +309,33 @@ def Op.now : Op → Nat
   | .finalize _ _ n _ _ _ => n
   | .listOrders _ _ n => n
 
-def step (s : Store) : Op → Store × Resp
-  | .newOrder acct now nch => newOrder s acct now nch
-  | .respond acct c _ out => respond s acct c out
-  | .getAuthz acct a now => getAuthz s acct a now
-  | .getOrder acct o now => getOrder s acct o now
-  | .finalize acct o now c g u => finalize s acct o now c g u
-  | .listOrders acct u now => listOrders s acct u now
+/-- one request under a storage fault `d` (`Deny.none`: no fault) -/
+def step (d : Deny) (s : Store) : Op → Store × Resp
+  | .newOrder acct now nch => newOrder d s acct now nch
+  | .respond acct c _ out => respond d s acct c out
+  | .getAuthz acct a now => getAuthz d s acct a now
+  | .getOrder acct o now => getOrder d s acct o now
+  | .finalize acct o now c g u => finalize d s acct o now c g u
+  | .listOrders acct u now => listOrders d s acct u now
+
+/-- a request together with the storage fault it runs under -/
+abbrev Req := Deny × Op
 
 /-- the store after a history, starting from the empty database -/
-def run (h : List Op) : Store := h.foldl (fun s op => (step s op).1) {}
+def run (h : List Req) : Store := h.foldl (fun s r => (step r.1 s r.2).1) {}
 
-/-- no injected storage fault -/
-def Op.faultFree : Op → Bool
-  | .finalize _ _ _ _ _ updFail => !updFail
-  | .respond _ _ _ out => out != .dbError
-  | _ => true
+/-- no injected storage fault at all -/
+def Req.faultFree (r : Req) : Bool :=
+  r.1 == .none && match r.2 with
+    | .finalize _ _ _ _ _ updFail => !updFail
+    | .respond _ _ _ out => out != .dbError
+    | _ => true
+
+/-- the only fault that matters for the certificate count: the last write of a finalization
+    (`UpdateOrder` with status valid) fails after the certificate has been stored -/
+def Req.finalWriteFails (r : Req) : Bool :=
+  match r.2 with
+  | .finalize _ o _ _ _ updFail => updFail || r.1 == .order o
+  | _ => false
 
 end Verif.AcmeSM
